@@ -5,6 +5,9 @@ correspondence:  (a) exhaustive get/set sequences: per-step observations (get
                  output + the walked linked structure) folded into a checksum,
                  summed per first-op group, computed by the model inside Coq
                  and by LFUCache; (b) random long traces compared in full.
+                 (c) the Coq SPEC (spec_sx, LfuSpec.v) evaluated on the same
+                 random traces against the Python reference LFU: outputs and
+                 final (key, value, uses) in order.
 direct oracle:   an independent reference LFU (victim = min (uses, time of
                  reaching that count)), structural consistency of the linked
                  lists, lock-discipline monitor, threaded workload.
@@ -112,6 +115,21 @@ class RefLFU:
             victim = min(self.d, key=lambda q: (self.d[q][1], self.d[q][2]))
             del self.d[victim]
         self.d[k] = [v, 0, self.clock]
+
+
+def ref_trace(cap, ops):
+    """The reference alone: get outputs and the final entries (key, value, uses)
+    ordered by the time each reached its current count (the order of the Coq
+    spec's list)."""
+    ref = RefLFU(cap)
+    outs = []
+    for kind, k, v in ops:
+        if kind == "get":
+            outs.append(ref.get(k))
+        else:
+            ref.set(k, v)
+    ents = sorted(ref.d.items(), key=lambda kv: kv[1][2])
+    return outs, [[k, e[0], e[1]] for k, e in ents]
 
 
 def run_impl(cap, ops, want_hash=True):
@@ -262,9 +280,17 @@ def gen_random(rng, maxlen):
 
 def random_traces(ctx, n, maxlen):
     cases = []
+    spec_cases = []
     for i in range(n):
         cap, ops = gen_random(ctx.rng, maxlen)
         h, outs, st, err, (ev, hit) = run_impl(cap, ops)
+        # the Coq specification (LfuSpec.v, evaluated inside Coq) against the Python
+        # reference that serves as direct oracle: ties the spec the theorems are
+        # stated against to the oracle, independently of the model
+        routs, rents = ref_trace(cap, ops)
+        spec_cases.append(("spec_sx %d %s" % (cap, coq_ops(ops)),
+                           [[("Some", o) if o is not None else None for o in routs], rents],
+                           {"capacity": cap, "ops": ops, "what": "Coq spec vs Python reference LFU"}))
         ctx.seen((cap, tuple(ops)), nontrivial=ev or hit)
         ctx.count("random:len<=20" if len(ops) <= 20 else "random:len>20")
         if ev:
@@ -291,6 +317,7 @@ def random_traces(ctx, n, maxlen):
         if i < 2:
             ctx.sample({"capacity": cap, "ops": ops[:30], "final_structure": st})
     ctx.coq_cases("lfu_traces", "From DD Require Import Lfu.LfuModel Lfu.LfuShow.\nLocal Open Scope Z_scope.", cases, shard=100, label="random_traces")
+    ctx.coq_cases("lfu_spec_traces", "From DD Require Import Lfu.LfuModel Lfu.LfuShow.\nLocal Open Scope Z_scope.", spec_cases, shard=100, label="spec_vs_reference")
 
 
 # ---- concurrency ------------------------------------------------------------
